@@ -126,7 +126,40 @@ func c07abstract() {
 	vrt.UF("github.com/free5gc/nas/zz_verifref.MUL64", "GFMUL")
 }
 
+// the per-algorithm functions with a buffer LONGER than the declared bit length needs (a PDU sitting in a larger zeroed
+// buffer): the MAC covers the first `length` bits only, so extra zero octets behind them (1, 7, 8, 9, 16; more at the thorough tier) change nothing
+func VH_C07_nia_slack() {
+	c0xFullDepth()
+	bitss := []uint64{1, 8, 31, 32, 33, 63, 64, 65, 88}
+	slacks := []int{1, 7, 8, 9, 16}
+	if vrt.Thorough() {
+		bitss = []uint64{1, 7, 8, 9, 31, 32, 33, 56, 63, 64, 65, 72, 88, 96, 127, 128, 129}
+		slacks = []int{1, 2, 7, 8, 9, 15, 16, 17, 24}
+	}
+	length := bitss[vrt.Choose("bitsel", 0, len(bitss)-1)]
+	slack := slacks[vrt.Choose("slacksel", 0, len(slacks)-1)]
+	ik := c07key("ik")
+	count, bearer, dir := c07params()
+	n := int((length + 7) / 8)
+	msg := vrt.Bytes("m", n)
+	if length%8 != 0 {
+		msg[n-1] &= byte(0xff) << (8 - length%8) // precondition: bits beyond length are zero
+	}
+	in := append([]byte{}, msg...)
+	long := append(append([]byte{}, msg...), make([]byte, slack)...)
+	if vrt.Bool("nia3") {
+		mac, err := NIA3(ik, count, bearer, dir, long, uint32(length))
+		vrt.Assert(err == nil && len(mac) == 4, "NIA3 returns a 4-octet MAC (buffer longer than the message)")
+		vrt.Assert(c07mac(mac) == ref.EIA3(ik, count, bearer, dir, in, uint32(length)), "NIA3 = 128-EIA3 when the buffer is longer than the declared length")
+		return
+	}
+	mac, err := NIA1(ik, count, bearer, uint32(dir), long, length)
+	vrt.Assert(err == nil && len(mac) == 4, "NIA1 returns a 4-octet MAC (buffer longer than the message)")
+	vrt.Assert(c07mac(mac) == ref.EIA1(ik, count, uint32(bearer), uint32(dir), in, length), "NIA1 = 128-EIA1 when the buffer is longer than the declared length")
+}
+
 func VH_C07_abs_nasmac()    { c07abstract(); VH_C07_nasmac() }
+func VH_C07_abs_nia_slack() { c07abstract(); VH_C07_nia_slack() }
 func VH_C07_abs_nia1_bits() { c07abstract(); VH_C07_nia1_bits() }
 func VH_C07_abs_nia3_bits() { c07abstract(); VH_C07_nia3_bits() }
 
